@@ -116,6 +116,30 @@ def gen_pad(rng, cid, nmax=4):
                          "fill_value": rand_spelling(rng, axnames, [-3, 0, 2, 7])}}
         if rng.random() < 0.2:
             case["args"]["npnum"] = rng.choice(["f64", "f32", "i64", "float"])
+        if rng.random() < 0.2:
+            # missing values among the original values: padding copies values, NaN included ("leaves every original
+            # value in place"); in the records a NaN is the distinguished integer NAN_INT
+            fl = case["args"]["data"]["flat"]
+            for k_ in rng.sample(range(len(fl)), max(1, len(fl) // 4)):
+                fl[k_] = model.NAN_INT
+        if rng.random() < 0.12:
+            # an array that is longer or shorter along a padded dimension than the grid's dataset (a sub-range, or the
+            # result of an earlier padding): it carries no dimension coordinates
+            d0 = case["args"]["data"]
+            axd_ = {d: a for a in axes for _, d in a["pos"]}
+            cand = [i for i, d in enumerate(d0["dims"]) if d in axd_ and any(w[0] == axd_[d]["name"] for w in widths)]
+            if cand:
+                i = rng.choice(cand)
+                newlen = max(1, d0["shape"][i] + rng.choice([-1, 1, 2]))
+                d0["shape"][i] = newlen
+                size = 1
+                for s_ in d0["shape"]:
+                    size *= s_
+                d0["flat"] = [rng.randint(-9, 9) for _ in range(size)]
+                for w in widths:
+                    if w[0] == axd_[d0["dims"][i]]["name"]:
+                        w[1], w[2] = min(w[1], newlen), min(w[2], newlen)
+                case["args"]["offlen"] = True
         if rng.random() < 0.25:
             # an earlier padding call on the same Grid with other per-call choices: the rule in force for THIS call is
             # resolved from this call's arguments and the Grid's settings, not from what an earlier call was given
@@ -139,7 +163,7 @@ def execute(case):
     try:
         from xgcm.padding import pad
 
-        da = model.make_array(case["args"]["data"], nm, ds, name="v1")
+        da = model.make_array(case["args"]["data"], nm, None if case["args"].get("offlen") else ds, name="v1")
         kw = model.call_kwargs(case["args"], nm)
         bw = {nm(a): (lo, hi) for a, lo, hi in case["args"]["widths"]}
         for b in case.get("before", []):
